@@ -161,6 +161,11 @@ def check_c08(idx: Index, tier: str, res: Result) -> None:
     res.check("MUSTCALL", "begin_session resets every selected scenario after configuring it", ok, bs.loc(), bs.qual,
               "configure_settings ... reset_scenario_cache", "begin_session does not reset the cache of the scenarios it configures",
               key="MUSTCALL/begin_session/reset")
+    bad = selected_scenarios_without(bs, "reset_scenario_cache")
+    res.check("MUSTCALL", "begin_session resets the cache of *every* selected scenario", not bad, bs.loc(), bs.qual, "if scenario in scenarios: ...",
+              "a selected scenario can enter the session without reset_scenario_cache(): its memo and live simulation from an earlier run "
+              "or session survive, so steps replay stale values and step settings are ignored; path: %s" % (bad[0] if bad else ""),
+              key="MUSTCALL/begin_session/reset-every-selected")
 
     # ---- (2) lockset -----------------------------------------------------------------------------------------
     nthreads = 0
@@ -188,6 +193,31 @@ def check_c08(idx: Index, tier: str, res: Result) -> None:
                         raise AnalysisError("cannot resolve thread target %s in %s" % (tname, fi.qual))
                     _lockset(idx, res, fi, target)
     res.floor("Thread(target=...) sites started in a loop", nthreads, 2)
+
+
+def selected_scenarios_without(fi: FuncInfo, event: str) -> List[str]:
+    """Paths through the body of `if scenario in scenarios:` (per selected scenario) that never call *event*."""
+    sel = [g for g in ast.walk(fi.node) if isinstance(g, ast.If) and isinstance(g.test, ast.Compare) and isinstance(g.test.ops[0], ast.In)
+           and src(g.test.left) == "scenario" and "scenarios" in src(g.test.comparators[0])]
+    sel = [g for g in sel if any(isinstance(lp, ast.For) and any(x is g for x in ast.walk(lp)) for lp in ast.walk(fi.node))]
+    if not sel:
+        raise AnalysisError("%s: per-scenario selection 'if scenario in scenarios' not found" % fi.qual)
+    out: List[str] = []
+    for g in sel:
+        wrapper = ast.FunctionDef(name="selected", args=ast.arguments(posonlyargs=[], args=[], kwonlyargs=[], kw_defaults=[], defaults=[]),
+                                  body=g.body, decorator_list=[], lineno=g.lineno, col_offset=0)
+        cfg = build_cfg(wrapper, fi.qual + ":selected")
+
+        def tr(node: Node, fact, label):
+            if node.ast is not None and node.kind in ("stmt", "test", "iter") and label != "exc":
+                probe = node.ast.iter if node.kind == "iter" else node.ast
+                if any(call_name(c) == event for c in iter_calls(probe)):
+                    fact = True
+            return [fact]
+        flow = Flow(cfg, [False], tr)
+        if False in flow.at[cfg.exit]:
+            out.append(" ".join(flow.witness(cfg.exit, False, 12)))
+    return out
 
 
 def _same_loop(fn: ast.AST, a: ast.AST, b: ast.AST) -> bool:
